@@ -1,0 +1,66 @@
+//go:build verif
+
+package export
+
+// Contracts for contract-based verification (/verif, property C16).
+
+// Every scalar field type of the schema language converts for the OpenAPI document: no field type is
+// rejected as unknown (containers and references convert when their parts do).
+//@ spec func leafField(f *schema_j5pb.Field) bool = typeis(f.Type, *schema_j5pb.Field_Any) || typeis(f.Type, *schema_j5pb.Field_String_) || typeis(f.Type, *schema_j5pb.Field_Key)
+//@   | || typeis(f.Type, *schema_j5pb.Field_Bytes) || typeis(f.Type, *schema_j5pb.Field_Date) || typeis(f.Type, *schema_j5pb.Field_Timestamp) || typeis(f.Type, *schema_j5pb.Field_Decimal)
+//@   | || typeis(f.Type, *schema_j5pb.Field_Integer) || typeis(f.Type, *schema_j5pb.Field_Float) || typeis(f.Type, *schema_j5pb.Field_Bool)
+// (schemas reaching the exporter have passed validation: arrays and maps carry their item schema,
+// properties carry a schema -- assumed at this entry, not re-established by callers)
+//@ func convertSchema
+//@   requires schema != nil
+//@   free requires typeis(schema.Type, *schema_j5pb.Field_Array) ==> as(*schema_j5pb.Field_Array, schema.Type).Array.Items != nil
+//@   free requires typeis(schema.Type, *schema_j5pb.Field_Map) ==> as(*schema_j5pb.Field_Map, schema.Type).Map.ItemSchema != nil
+//@   ensures total: leafField(schema) ==> result1 == nil
+//@   ensures usable: result1 == nil ==> result0 != nil && result0.SchemaItem != nil
+//@   ensures typed: result1 == nil && leafField(schema) ==> result0.SchemaItem.Type != nil
+//@ func convertArrayItem
+//@   requires item != nil && item.Items != nil
+//@   ensures result1 == nil ==> result0 != nil
+//@ func convertMapItem
+//@   requires item != nil && item.ItemSchema != nil
+//@   ensures result1 == nil ==> result0 != nil
+//@ func convertObjectItem
+//@   requires item != nil
+//@   ensures result1 == nil ==> result0 != nil && result0.SchemaItem != nil
+//@ func convertOneofItem
+//@   requires item != nil
+//@   ensures result1 == nil ==> result0 != nil && result0.SchemaItem != nil
+//@ func convertEnumItem
+//@   requires item != nil
+//@   ensures result != nil && result.SchemaItem != nil
+//@ func convertStringItem
+//@   requires item != nil
+//@   ensures result != nil
+//@ func convertIntegerItem
+//@   requires item != nil
+//@   ensures result != nil
+//@ func convertFloatItem
+//@   requires item != nil
+//@   ensures result != nil
+//@ func convertBooleanItem
+//@   requires item != nil
+//@   ensures result != nil
+//@ func convertKeyItem
+//@   ensures result != nil
+// inputs are valid protobuf messages: non-nil, with schemas on their properties (validated upstream)
+//@ spec func propsOK(ps []*schema_j5pb.ObjectProperty) bool = forall i int {ps[i]} :: 0 <= i && i < len(ps) ==> ps[i] != nil && ps[i].Schema != nil
+//@ func BuildSwagger
+//@   requires b != nil
+//@ func ConvertRootSchema
+//@   requires schema != nil
+//@   free requires typeis(schema.Type, *schema_j5pb.RootSchema_Object) ==> propsOK(as(*schema_j5pb.RootSchema_Object, schema.Type).Object.Properties)
+//@   free requires typeis(schema.Type, *schema_j5pb.RootSchema_Oneof) ==> propsOK(as(*schema_j5pb.RootSchema_Oneof, schema.Type).Oneof.Properties)
+//@ func convertObjectItem
+//@   requires propsOK(item.Properties)
+//@   loop 0 invariant propsOK(item.Properties) && out != nil && out.Properties != nil
+//@ func convertOneofItem
+//@   requires propsOK(item.Properties)
+//@   loop 0 invariant propsOK(item.Properties) && out != nil && out.Properties != nil
+//@ func convertSchema
+//@   free requires typeis(schema.Type, *schema_j5pb.Field_Object) && typeis(as(*schema_j5pb.Field_Object, schema.Type).Object.Schema, *schema_j5pb.ObjectField_Object) ==> propsOK(as(*schema_j5pb.ObjectField_Object, as(*schema_j5pb.Field_Object, schema.Type).Object.Schema).Object.Properties)
+//@   free requires typeis(schema.Type, *schema_j5pb.Field_Oneof) && typeis(as(*schema_j5pb.Field_Oneof, schema.Type).Oneof.Schema, *schema_j5pb.OneofField_Oneof) ==> propsOK(as(*schema_j5pb.OneofField_Oneof, as(*schema_j5pb.Field_Oneof, schema.Type).Oneof.Schema).Oneof.Properties)
